@@ -94,3 +94,46 @@ fn stale_write_is_injected_into_the_new_connection() -> turmoil::Result {
     });
     sim.run()
 }
+
+/// residual scenario: the OLD stream has unread data in its own receive queue when it is dropped after the
+/// reconnect — its destructor must not send a RST by address pair (it would reset the new connection).
+#[test]
+fn dropping_the_old_stream_with_unread_data_does_not_reset_the_new_connection() -> turmoil::Result {
+    let mut sim = Builder::new()
+        .ephemeral_ports(49152..=49152)
+        .min_message_latency(Duration::from_millis(1))
+        .max_message_latency(Duration::from_millis(1))
+        .build();
+    sim.host("server", || async {
+        let l = TcpListener::bind("0.0.0.0:80").await?;
+        let (mut s, _) = l.accept().await?;
+        s.write_all(b"DD").await?; // stays unread in the client's old stream
+        tokio::time::sleep(Duration::from_millis(20)).await;
+        drop(s); // "AA" unread here -> RST
+        let (mut s, _) = l.accept().await?;
+        let mut buf = [0u8; 16];
+        let mut got = Vec::new();
+        while got.len() < 4 {
+            let n = s.read(&mut buf).await?;
+            assert!(n > 0, "end-of-file on the new connection");
+            got.extend_from_slice(&buf[..n]);
+        }
+        println!("server read on the second connection: {:?}", String::from_utf8_lossy(&got));
+        std::future::pending::<()>().await;
+        Ok(())
+    });
+    sim.client("client", async {
+        let mut s1 = TcpStream::connect("server:80").await?;
+        s1.write_all(b"AA").await?;
+        tokio::time::sleep(Duration::from_millis(60)).await;
+        let mut s2 = TcpStream::connect("server:80").await?;
+        s2.write_all(b"BB").await?;
+        tokio::time::sleep(Duration::from_millis(10)).await;
+        drop(s1);
+        tokio::time::sleep(Duration::from_millis(10)).await;
+        s2.write_all(b"BB").await?;
+        tokio::time::sleep(Duration::from_millis(50)).await;
+        Ok(())
+    });
+    sim.run()
+}
